@@ -180,6 +180,14 @@ impl RtpsWriterProxy {
     for s in relevant_interval {
       #[cfg(rustdds_verif)]
       crate::verif::hooks::tick();
+      // An ACKNACK can carry at most 256 sequence numbers counting from the first
+      // missing one, so there is no use in looking further. This also bounds
+      // the work when a HEARTBEAT advertises a huge range.
+      if let Some(&first_missing) = missing_seqnums.first() {
+        if i64::from(s) - i64::from(first_missing) >= 256 {
+          break;
+        }
+      }
       match known_head {
         None => missing_seqnums.push(s), // no known changes left => s is missing
         Some(known_sn) => {
